@@ -151,11 +151,12 @@ func (ex *Exec) callFunction(fn *ssa.Function, args []Value, caller *Frame) Valu
 }
 
 func (ex *Exec) callSSA(fn *ssa.Function, args []Value, freevars []Value, caller *Frame) Value {
-	ex.st.depth++
-	if ex.st.depth > 400 {
+	st := ex.st
+	st.depth++
+	if st.depth > 400 {
 		panic(unsupported("call depth exceeded in " + fn.String()))
 	}
-	defer func() { ex.st.depth-- }()
+	defer func() { st.depth-- }()
 	fr := &Frame{fn: fn, env: make(map[ssa.Value]Value, 16), caller: caller}
 	if len(args) != len(fn.Params) {
 		panic(fmt.Sprintf("call %s: %d args for %d params", fn, len(args), len(fn.Params)))
@@ -281,8 +282,9 @@ func (ex *Exec) callValue(fr *Frame, fv Value, args []Value, deferredCall bool) 
 
 func (ex *Exec) callSSADeferred(fn *ssa.Function, args []Value, env []Value, caller *Frame) Value {
 	// same as callSSA, but the callee may recover the caller's panic
-	ex.st.depth++
-	defer func() { ex.st.depth-- }()
+	st := ex.st
+	st.depth++
+	defer func() { st.depth-- }()
 	fr := &Frame{fn: fn, env: make(map[ssa.Value]Value, 16), caller: caller, isDeferred: true}
 	for i, p := range fn.Params {
 		fr.env[p] = args[i]
